@@ -605,6 +605,32 @@ func c10Recover(c *Ctx, rule string) {
 				}
 			})
 		}
+		// the handler must not panic itself: reflect.TypeOf of a nil interface is nil, so a method called on its
+		// result (Kind(), Elem(), …) panics a second time - inside the deferred function, where nothing recovers
+		var second []string
+		for _, g := range recoverers[fn] {
+			for _, f := range Region(g) {
+				for _, cl := range Calls(f) {
+					cm := cl.Common()
+					if !cm.IsInvoke() {
+						continue
+					}
+					if tc, isCall := Strip(cm.Value).(*ssa.Call); isCall && IsCallTo(tc, "reflect.TypeOf") {
+						guarded := false
+						for _, a := range AtomStrings(GuardsOfBlock(cl.Block())) {
+							// a nil test of the value itself, or of the type obtained from it, in this function
+							if len(tc.Call.Args) == 1 && (a == Desc(tc.Call.Args[0])+" != nil" || a == Desc(tc)+" != nil") {
+								guarded = true
+							}
+						}
+						if !guarded {
+							second = append(second, FuncKey(f)+": "+Desc(cm.Value)+"."+cm.Method.Name()+"()")
+						}
+					}
+				}
+			}
+		}
+		c.Check(len(second) == 0, rule, fn.String(), "handler-cannot-panic-again", fn.Pos(), "the recover handler calls no method on reflect.TypeOf(v) without a nil test (TypeOf of a nil interface is nil): %v", second)
 		c.Check(okNil && okErr, rule, fn.String(), "converts-panic", fn.Pos(), "the recovered panic becomes \"<nil>\" for a nil pointer receiver and a PANIC=… error otherwise (nil=%v err=%v)", okNil, okErr)
 	}
 
